@@ -666,6 +666,33 @@ func roundTripConsistent(a subject, c opsCase) string {
 	return ""
 }
 
+// interleaveCase: the scores of one vector must not depend on which other vector the
+// process scored just before (every object is built freshly by field assignment).
+type interleaveCase struct {
+	Before1 fieldCase3 `json:"scored_before_first_time"`
+	Before2 fieldCase3 `json:"scored_before_second_time"`
+	V       fieldCase3 `json:"vector"`
+}
+
+func scores3(f fieldCase3) [3]float64 {
+	e := build3(f)
+	return [3]float64{e.Score(), e.TemporalMetrics().Score(), e.BaseMetrics().Score()}
+}
+
+var checkC15Interleave = register("C15/interleave", func(c interleaveCase) string {
+	if !inRange3(c.Before1) || !inRange3(c.Before2) || !inRange3(c.V) {
+		return ""
+	}
+	scores3(c.Before1)
+	s1 := scores3(c.V)
+	scores3(c.Before2)
+	s2 := scores3(c.V)
+	if s1 != s2 {
+		return fmt.Sprintf("scores (environmental, temporal, base) of %s are %v when %s was scored just before and %v when %s was", c.V.withText().Text, s1, c.Before1.withText().Text, s2, c.Before2.withText().Text)
+	}
+	return ""
+})
+
 // parserCase: repeated parsing of one code must always give the same value (the parsers
 // iterate over maps, whose order is randomised).
 type parserCase struct {
@@ -860,6 +887,63 @@ func TestC15(t *testing.T) {
 				}
 			}
 		}
+	}
+	// ---- interleave flood: a stream of random v3 objects (fields assigned, every object fresh)
+	// is scored at all three levels in one order and then in another; each vector must answer
+	// the same both times. State that scoring keeps *between objects* (a last-result memo, a
+	// coarse key) shows only for particular neighbours — probability per pair is small, so
+	// the stage is built for volume.
+	{
+		n := int(pick(120000, 3000000))
+		r := gen.NewRng(uint64(seed)*104729 + uint64(shard) + 17)
+		fs := make([]fieldCase3, n)
+		for i := range fs {
+			f := &fs[i]
+			f.Ver = r.Intn(2)
+			dims := [8]int{4, 2, 3, 2, 2, 3, 3, 3}
+			for k := range f.B {
+				f.B[k] = r.Intn(dims[k])
+			}
+			for k, m := range spec.V3T() {
+				f.T[k] = r.Intn(len(m.Codes))
+			}
+			for k, m := range spec.V3E() {
+				f.E[k] = r.Intn(len(m.Codes))
+			}
+			if i%3 == 0 { // scope-changed vectors with defined impact are where the arithmetic is richest
+				f.B[4], f.E[7] = 1, r.Intn(2)*2
+			}
+		}
+		first := make([][3]float64, n)
+		for i := range fs {
+			first[i] = scores3(fs[i])
+		}
+		nviol := 0
+		key := mix(uint64(seed), 0xc15)
+		prev := -1
+		for k := 0; k < n && nviol == 0; k++ {
+			i := int(permIndex(uint64(k), uint64(n), key))
+			if got := scores3(fs[i]); got != first[i] {
+				cs := interleaveCase{V: fs[i]}
+				if i > 0 {
+					cs.Before1 = fs[i-1]
+				} else {
+					cs.Before1 = fs[i]
+				}
+				if prev >= 0 {
+					cs.Before2 = fs[prev]
+				} else {
+					cs.Before2 = fs[n-1]
+				}
+				evalEnum(c, "interleave", cs, checkC15Interleave, &nviol)
+				if nviol == 0 {
+					c.violation("interleave", cs, fmt.Sprintf("scores of one vector differ between two passes over the same stream: %v then %v (not reproduced from the two predecessors alone)", first[i], got))
+					nviol++
+				}
+			}
+			prev = i
+		}
+		c.rec.Bulk("interleave-flood", int64(2*n), int64(2*n), map[string]int64{"interleave:v3-object-scored-in-two-orders": int64(n)})
 	}
 	c.rapidStage("sequences", pick(16000, 300000), func(rt *rapid.T) {
 		ver := rapid.SampledFrom([]int{2, 3}).Draw(rt, "version")
